@@ -753,6 +753,13 @@ def _shared_rule(mod, name, **kw):
     return run
 
 
+def r20_records_are_fresh(ctx, rule):
+    from .common import no_reused_record
+    no_reused_record(ctx, rule, ['lib_guesser/pcfg_grammar.py', 'lib_guesser/priority_queue.py'], 10, 'the queue keeps the very dictionary it is '
+                     'handed (QueueItem holds a reference): a record refilled on the next pass rewrites the entry that is already queued - its '
+                     'pre-terminal and probability become those of the last sibling, so pops come out of order, twice or not at all')
+
+
 def rules(tier):
     return [('C01.R1', r1_heap_order), ('C01.R2', r2_heap_ownership), ('C01.R3', r3_prob_fold),
             ('C01.R4', r4_prob_pt_coupling), ('C01.R5', r5_successor), ('C01.R6', r6_loader_order),
@@ -769,7 +776,9 @@ def rules(tier):
             # mutation sweep: next() returning None with one item left
             ('C01.R18', _shared_rule('plumbing', 'generator_glue')),
             # C01-ea: is_parent_around builds the candidate parent on the child's own list - the restored node keeps its probability but not its tree
-            ('C01.R19', _shared_rule('c02', 'r4_copy_before_mutate'))]
+            ('C01.R19', _shared_rule('c02', 'r4_copy_before_mutate')),
+            # C01-fb: one child_item dict for every child of the restore walk
+            ('C01.R20', r20_records_are_fresh)]
 
 
 META = {
